@@ -190,17 +190,17 @@ class C17(Check):
     def budget(self, tier):
         q = tier == 'quick'
         return {
-            'reject_options': 2500 if q else 40000,
-            'reject_near': 1200 if q else 20000,
-            'reject_grow': 2500 if q else 40000,
-            'reject_small_history': 2000 if q else 25000,
-            'reject_nd': 600 if q else 10000,
-            'interp_1d': 2000 if q else 30000,
-            'interp_nd': 1500 if q else 20000,
-            'aesthetics': 1500 if q else 25000,
-            'median_1d': 1200 if q else 20000,
-            'median_2d': 500 if q else 8000,
-            'skymask': 1500 if q else 25000,
+            'reject_options': 2500 if q else 120000,
+            'reject_near': 1200 if q else 60000,
+            'reject_grow': 2500 if q else 120000,
+            'reject_small_history': 2000 if q else 75000,
+            'reject_nd': 600 if q else 30000,
+            'interp_1d': 2000 if q else 90000,
+            'interp_nd': 1500 if q else 60000,
+            'aesthetics': 1500 if q else 75000,
+            'median_1d': 1200 if q else 60000,
+            'median_2d': 500 if q else 24000,
+            'skymask': 1500 if q else 75000,
         }
 
     # ------------------------------------------------------------------ gen
